@@ -183,7 +183,7 @@ def specPiecesMatch (ext nc : Bool) (ps : List PatPiece) (s : Str) : Option Bool
 /-- pathname expansion of a one-component piece list: the matching names (empty = word kept) -/
 def specExpandPieces (ext nc dotglob : Bool) (ps : List PatPiece) (names : List Str) : Option (List Str) :=
   (specParse ext (specPiecesText ps)).map fun q =>
-    let lead := match ps with | p :: _ => startsWithDot p.raw | [] => false
+    let lead := startsWithDot (ps.flatMap PatPiece.raw)      -- the component's text, however it is cut into pieces
     sortStrs (names.filter fun n => matchB nc q n && (!startsWithDot n || dotglob || lead))
 
 /-! ## how a character was written does not matter to what it matches -/
